@@ -570,9 +570,12 @@ static const char* classify_known_pos(const std::string& opts, const RE* re, int
     if (gs > es && finite_closure_before_nrange(re->ops())) return "nrange-overlap-possessive";
     return nullptr;
 }
+// Only defects the ledger still lists as known may absorb a mismatch; the predicates of repaired defects stay (they name the root cause in reports),
+// but a mismatch that matches one of them is an ordinary violation again.
+static bool kd_open(const char* kd) { return kd && std::string(kd) == "xsd-first-match-not-extended"; }
 static bool explained(Ctx& c, bool xpath, const std::string& opts, const RE* re, int root, const StrSet& S, size_t si, const Sem& sem, bool expected, bool observed) {
     const char* kd = classify_known(xpath, opts, re, root, S, si, sem, expected, observed);
-    if (!kd) return false;
+    if (!kd || !kd_open(kd)) return false;
     c.count(std::string("known_defect:") + kd);
     return true;
 }
@@ -876,7 +879,7 @@ static void run_flags(uint64_t idx, Ctx& c) {
                     c.count(ee >= 0 ? "flags:positions_compared_start_end" : "flags:positions_compared_start_only");
                     if (gs != es || (ee >= 0 && ge != ee)) {
                         const char* kd = classify_known_pos(opts, C.re, root, STR, i, sem, pat.size(), es, ee, gs, ge);
-                        if (kd) { c.count(std::string("known_defect:") + kd); continue; }
+                        if (kd_open(kd)) { c.count(std::string("known_defect:") + kd); continue; }
                         if (!badpos) { firstpos = i; posdet = "\"expected\":[" + std::to_string(es) + "," + std::to_string(ee) + "],\"observed\":[" + std::to_string(gs) + "," + std::to_string(ge) + "]"; }
                         badpos++;
                     }
@@ -1033,7 +1036,7 @@ static void run_tokrep(uint64_t idx, Ctx& c) {
                     c.count("tokrep:match_positions_compared");
                     int gs = m.getStartPos(0), ge = m.getEndPos(0);
                     const char* kd = (gs != es || (ee >= 0 && ge != ee)) ? classify_known_pos(opts, C.re, root, STR, i, sem, pat.size(), es, ee, gs, ge) : nullptr;
-                    if (kd) c.count(std::string("known_defect:") + kd);
+                    if (kd_open(kd)) c.count(std::string("known_defect:") + kd);
                     else if ((gs != es || (ee >= 0 && ge != ee)) && !badP++)
                         dP = "\"string\":" + jstr(a16(s)) + ",\"expected\":[" + std::to_string(es) + "," + std::to_string(ee) + "],\"observed\":[" + std::to_string(gs) + "," + std::to_string(ge) + "]";
                 }
